@@ -392,8 +392,9 @@ static int cmd_run(const Args &a)
 					}
 				} else if (r == 0) eof = true;
 			}
-			// watchdog: one run may not take more than 180 s of wall time
-			if (!eof && w.cur >= 0 && now - w.started > 180) {
+			// watchdog (backstop only: hangs of the threaded code are caught deterministically by the scheduler's
+			// step budgets): one run may not take more than 600 s of wall time, even on a heavily loaded machine
+			if (!eof && w.cur >= 0 && now - w.started > 600) {
 				kill(w.pid, SIGKILL);
 				eof = true;
 			}
